@@ -206,6 +206,12 @@ func (s *PfcpServer) receiver(wg *sync.WaitGroup) {
 			break
 		}
 
+		if n == 0 {
+			// an empty datagram carries no PFCP message; an empty buffer is the
+			// signal this goroutine gives the main loop when the socket is closed
+			continue
+		}
+
 		s.log.Tracef("receiver reads message(len=%d)", n)
 		msgBuf := make([]byte, n)
 		copy(msgBuf, buf)
